@@ -73,3 +73,13 @@ META.update({
    text="17408 synthetic records (every cause code the extractor distinguishes and 250 it must not) and ~285 real (mechanism, signal) probes including children, timers and SIGPIPE.",
    note="kernel and glibc of this sandbox are the ground truth"),
 })
+META.update({
+ "C04": dict(engine="native forked probes", category="fault_enumeration",
+   technique="failpoint sweep: a real delivery raised at every step of the first registration (and bombardment of other threads), foreign handler and actions logging unique per-delivery sequence numbers and argument pointers",
+   text="Per trial the log must show the previous handler exactly once per delivered sequence number, first, with the kernel's info pointer; hundreds of deliveries per run go through the race-fallback path (the window between sigaction() and the publication of the slot).",
+   note="arrival instants = hook sites deterministically + random bombardment; chaining cannot be run under Miri"),
+ "C05": dict(engine="native forked probes", category="exploration",
+   technique="runtime monitoring against an executable reference model (per-signal ordered Vec of (id, tag)) with a delivery after every operation; sigaction(2) and a blocked read(2) as kernel oracles",
+   text="About 100k operations per quick run (millions in thorough) over 16 seeds on up to 55 signals; every delivery's ordered run list must equal the model's.",
+   note="sequential histories only"),
+})
